@@ -121,6 +121,68 @@ def run(ctx):
 
     prealloc_cap_rule(ctx, [wmo], "C15", floor=5)
 
+    # visible-block lists are u16 values ended by the marker the writer emits: the parser stops at exactly that value (evaluated over
+    # all 65536 values, with the width and signedness of the local it compares)
+    R_term = ctx.rule("C15.list-terminator-is-the-written-marker", "parse_visible_block_lists ends a list at a value v iff v is the marker write_visible_block_lists emits (all 65536 u16 values evaluated at the parser's operand type)", floor=1)
+    from .c10 import _bval as _bv15, _NoEval as _NE15
+    pv = next((f for f in wmo.fn_list if f.hir and f.kind != "Closure" and norm(f.path).endswith("parser::WmoParser::parse_visible_block_lists")), None)
+    wv = next((f for f in wmo.fn_list if f.hir and f.kind != "Closure" and re.search(r"writer::WmoWriter::write_visible_block_lists$", norm(f.path))), None)
+    if pv is None or wv is None:
+        ctx.bad(R_term, "visible_block_lists|missing", "-", "parser or writer not found", "anchor gone")
+    else:
+        ctx.saw_fn(pv)
+        ctx.saw_fn(wv)
+        # the marker: the integer literal written once per list by the writer (outside the per-element loop over the list)
+        marks = sorted({hirq.lit_int(hirq.strip(c_["args"][0])) for c_ in hirq.walk(wv.hir["body"]) if c_.get("k") == "mcall" and re.match(r"write_u16", c_["m"]) and c_.get("args") and hirq.lit_int(hirq.strip(c_["args"][0])) is not None})
+        brk = next((n_ for lp in hirq.find(pv.hir["body"], "loop") for n_ in hirq.find(lp["body"], "if") if any(x.get("k") == "break" for x in hirq.walk(n_["then"])) and not re.search(r"\.len\(\)", hirq.render(n_["c"]))), None)
+        if len(marks) != 1 or brk is None:
+            ctx.bad(R_term, "visible_block_lists|shape", pv.where, "marker literal (%s) or the parser's `if .. { break }` not recognised" % marks, "shape changed")
+        else:
+            free = sorted({y["res"]["local"] for y in hirq.walk(brk["c"]) if y.get("k") == "path" and "local" in y["res"]})
+            tyname = None
+            for y in hirq.walk(brk["c"]):
+                if y.get("k") == "path" and y["res"].get("local") in free:
+                    tyname = wmo.ty(y.get("t")) or tyname
+            try:
+                stop = set()
+                for v in range(65536):
+                    val = v - 65536 if (tyname or "").startswith("i") and v >= 32768 else v
+                    if _bv15(brk["c"], {free[0]: val}, {}):
+                        stop.add(v)
+                if stop == {marks[0]}:
+                    ctx.ok(R_term, {"marker": "0x%04X" % marks[0], "operand_type": tyname, "stops_at": ["0x%04X" % x for x in sorted(stop)]})
+                else:
+                    extra = sorted(stop - {marks[0]})
+                    ctx.bad(R_term, "parse_visible_block_lists|terminator", "%s:%d" % (pv.file, brk.get("ln") or 0), "`%s` (operand type %s) ends a list at %d values (e.g. 0x%04X); the writer's marker is 0x%04X only" % (hirq.render(brk["c"])[:40], tyname, len(stop), extra[0] if extra else marks[0], marks[0]),
+                            "a list holding such a value is cut there when the file is parsed back: the entries behind it are lost and the second write differs")
+            except _NE15 as e:
+                ctx.bad(R_term, "parse_visible_block_lists|not-evaluable", "%s:%d" % (pv.file, brk.get("ln") or 0), "terminator test not evaluable: %s" % e, "shape changed")
+
+    # names (textures, groups, doodads, skybox) are written byte for byte as the model holds them: the parser returns what is in the
+    # file, so any rewriting on the way out (separator / case normalisation, trimming) is a difference after write -> parse
+    R_verb = ctx.rule("C15.names-written-verbatim", "no byte string handed to write_all in WmoWriter derives from a rewriting string call (replace / to_*case / trim* / strip_* / normalize*)", floor=4)
+    REWRITE = re.compile(r"::(replace|replacen|replace_range|to_lowercase|to_uppercase|to_ascii_lowercase|to_ascii_uppercase|make_ascii_lowercase|make_ascii_uppercase|trim|trim_start|trim_end|trim_matches|trim_start_matches|trim_end_matches|strip_prefix|strip_suffix|normalize\w*|escape_\w+)$")
+    from .. import mirg as _mg15
+    from ..rules import ncallee as _nc15
+    for f in wmo.fn_list:
+        if "writer::WmoWriter::" not in f.path or not f.mir or not f.mir.get("blocks") or "::tests::" in f.path:
+            continue
+        du15 = None
+        for bb, t in _mg15.iter_calls(f):
+            if not re.search(r"io::Write::write_all$|io::Write>::write_all$", _mg15.callee(t) or "") and not re.search(r"io::Write::write_all$", _mg15.callee_decl(t) or ""):
+                continue
+            if len(t["a"]) < 2 or _mg15.op_local(t["a"][1]) is None:
+                continue
+            du15 = du15 or _mg15.DefUse(f)
+            _l, calls_, _i = du15.slice_back(_mg15.op_local(t["a"][1]), depth=8)
+            rw = [(_nc15(c_) or "") for c_ in calls_ if REWRITE.search(_nc15(c_) or "")]
+            if rw:
+                ctx.saw_fn(f)
+                ctx.bad(R_verb, "%s|rewritten-%s" % (norm(f.path).split("::")[-1], rw[0].split("::")[-1]), "%s:%d" % (f.file, t["ln"]), "the bytes written here pass through `%s`" % rw[0].split("::", 1)[-1][:50],
+                        "a name containing what the call rewrites comes back different after write -> parse (the second write is identical, so only a comparison with the original model shows it)")
+            else:
+                ctx.ok(R_verb, {"fn": norm(f.path).split("::")[-1], "line": t["ln"]})
+
     W = {norm(f.path).split("::")[-1]: f for f in wmo.fn_list if "writer::WmoWriter::write_" in f.path and f.kind != "Closure" and f.hir}
 
     # group files: the fixed MOGP header the writer emits is as long as the one the group parser consumes
